@@ -31,7 +31,9 @@
       property text exempts nothing here: see [C01_nonliteral_overlap_refuted]
       and [C01_nonliteral_mixed_cards_refuted] below.
     - [C01_line_exact] / [C01_comment_exact]: the same spelled out.
-    - [C01_ratio_at_most_one_e2e]. *)
+    - [C01_ratio_at_most_one_e2e], [C01_line_ratio_at_most_one].
+    - [C01_header_is_number_of_instances]: the one statement with a graph
+      hypothesis (no repeated typing statement), and without instance cap. *)
 From Coq Require Import List Ascii String ZArith NArith Bool.
 From Shexer Require Import Lib.PyStr Lib.Dict Lib.Bin64 Gen.Consts Spec.Rdf Model.Tracker Model.Profiler Model.Tokens
   Model.Freq Model.FreqInst Model.Shexing Model.Run Spec.Counts Proofs.ProfileChar Proofs.ShexLemmas Proofs.ShexKeys
@@ -185,6 +187,29 @@ Theorem C01_ratio_at_most_one_e2e : forall tau I g dir cls p ty n pr c0,
   fle BAlg (ratio BAlg n (class_count I cls)) (fone BAlg) = true.
 Proof. exact e2e_ratio_le_one. Qed.
 Print Assumptions C01_ratio_at_most_one_e2e.
+
+(** the same for the printed ratio of a plain constraint line (binary64 run) *)
+Theorem C01_line_ratio_at_most_one : forall c thr g ns shapes,
+  run_shapes BAlg c thr g = inl (ns, shapes) ->
+  forall sh st, In sh shapes -> In st (sh_stmts sh) ->
+    s_choice st = false -> s_type st <> c_NONLITERAL_ELEM_TYPE -> (sh_n sh < 2 ^ 53)%N ->
+    (s_nocc st <= sh_n sh)%N /\ fle BAlg (ratio BAlg (s_nocc st) (sh_n sh)) (fone BAlg) = true.
+Proof. exact e2e_line_ratio_le_one. Qed.
+Print Assumptions C01_line_ratio_at_most_one.
+
+(** the header count is the NUMBER OF INSTANCES the tracker selected for the
+    class -- here a graph hypothesis is really needed: no typing statement
+    [i tau cls] relevant to the tracker occurs twice (otherwise [cls] is
+    listed twice for [i] and counted twice, QUIRK Q7); [typing_pair t] =
+    (subject identifier, object identifier); no instance cap *)
+Theorem C01_header_is_number_of_instances : forall fa c (thr : F fa) g ns shapes,
+  (r_cap c <= 0)%Z -> NoDup (map typing_pair (filter (relevant (r_tau c) (mode_of c)) g)) ->
+  run_shapes fa c thr g = inl (ns, shapes) ->
+  exists I, track (r_tau c) (mode_of c) (r_cap c) g = inl I /\
+    forall sh, In sh shapes ->
+      sh_n sh = N.of_nat (List.length (filter (fun ie : str * list str => mem_str (sh_class sh) (snd ie)) I)).
+Proof. exact e2e_header_instances. Qed.
+Print Assumptions C01_header_is_number_of_instances.
 
 (** non-vacuity on [g_mixed] (a, b, c : C; a p u1, u2; b p u1; c p _:x): the
     run's figures, and the declarative counts they are *)
